@@ -78,6 +78,9 @@ CONT = [
     ("liesel", "IWLS", ["mu", "beta"], [1.0]),
     ("liesel", "MH", ["mu"], [0.6]),
     ("liesel", "RW", ["offset"], [0.4]),
+    ("liesel_tr", "RW", ["tau2_transformed"], [0.5]),
+    ("liesel_tr", "IWLS", ["tau2_transformed"], [0.8]),
+    ("liesel_tr", "IWLS", ["tau2_transformed", "m"], [0.9]),
 ]
 
 HAM = [
@@ -91,6 +94,8 @@ HAM = [
     ("dict", "NUTS", ["c"], "id", 0.5),
     ("liesel", "NUTS", ["log_sigma", "beta"], "diag", 0.1),
     ("liesel", "NUTS", ["beta", "mu"], "dense", 0.15),
+    ("liesel_tr", "HMC", ["tau2_transformed", "m"], "diag", 0.15),
+    ("liesel_tr", "NUTS", ["tau2_transformed"], "id", 0.3),
 ]
 
 
@@ -304,6 +309,12 @@ class Target:
             self.state0 = self.model.state
             self.full0 = {p: np.asarray(self.state0[kl.param_node(p)].value, dtype=np.float64) for p in kl.PARAMS}
             self._lp = lambda full: kl.ref_liesel(full)["_model_log_prob"]
+        elif model_name == "liesel_tr":
+            self.model = kl.build_transformed_model()
+            self.interface = gs.LieselInterface(self.model)
+            self.state0 = self.model.state
+            self.full0 = {p: np.asarray(self.state0[f"{p}_value"].value, dtype=np.float64) for p in kl.TR_PARAMS}
+            self._lp = kl.ref_transformed
         else:
             self.model = None
             self.interface = gs.DictInterface(kl.dict_log_prob_jax)
